@@ -498,8 +498,106 @@ pub fn gen_instance(rng: &mut Rng, schema: &Value, defs: &Defs, depth: u32) -> O
     })
 }
 
+fn deref_schema<'a>(schema: &'a Value, defs: &'a Defs, depth: u32) -> &'a Value {
+    if depth > 6 {
+        return schema;
+    }
+    if let Some(Value::String(r)) = schema.get("$ref") {
+        if let Some(t) = model::resolve_ref(r, defs) {
+            return deref_schema(t, defs, depth + 1);
+        }
+    }
+    if let Some(Value::Array(a)) = schema.get("allOf") {
+        if a.len() == 1 {
+            return deref_schema(&a[0], defs, depth + 1);
+        }
+    }
+    schema
+}
+
+/// A value that is valid except for one nested part.
+fn gen_deep_invalid(rng: &mut Rng, schema: &Value, defs: &Defs, depth: u32) -> Option<Value> {
+    if depth > 3 {
+        return None;
+    }
+    let s = deref_schema(schema, defs, 0);
+    // nullable / single-alternative wrappers: go into the non-null branch
+    for key in ["anyOf", "oneOf"] {
+        if let Some(Value::Array(subs)) = s.get(key) {
+            let non_null: Vec<&Value> = subs.iter().filter(|x| x.get("type") != Some(&json!("null"))).collect();
+            if !non_null.is_empty() {
+                let branch = *rng.pick(&non_null);
+                // either an invalid value of the branch itself, or deeper
+                return if rng.chance(1, 2) {
+                    gen_invalid_instance_shallow(rng, branch, defs)
+                } else {
+                    gen_deep_invalid(rng, branch, defs, depth + 1)
+                };
+            }
+        }
+    }
+    let mut v = gen_instance(rng, s, defs, 0)?;
+    match &mut v {
+        Value::Array(items) if !items.is_empty() => {
+            let i = rng.below(items.len());
+            let item_schema = match s.get("items") {
+                Some(Value::Array(ss)) => ss.get(i)?.clone(),
+                Some(x) => x.clone(),
+                None => return None,
+            };
+            items[i] = if rng.chance(2, 3) {
+                gen_invalid_instance_shallow(rng, &item_schema, defs)?
+            } else {
+                gen_deep_invalid(rng, &item_schema, defs, depth + 1)?
+            };
+            Some(v)
+        }
+        Value::Object(m) if !m.is_empty() => {
+            let keys: Vec<String> = m.keys().cloned().collect();
+            let k = rng.pick(&keys).clone();
+            let member_schema = s
+                .get("properties")
+                .and_then(|p| p.get(&k))
+                .cloned()
+                .or_else(|| s.get("additionalProperties").filter(|a| a.is_object()).cloned())?;
+            let nv = if rng.chance(2, 3) {
+                gen_invalid_instance_shallow(rng, &member_schema, defs)?
+            } else {
+                gen_deep_invalid(rng, &member_schema, defs, depth + 1)?
+            };
+            m.insert(k, nv);
+            Some(v)
+        }
+        _ => None,
+    }
+}
+
+fn gen_invalid_instance_shallow(rng: &mut Rng, schema: &Value, defs: &Defs) -> Option<Value> {
+    // the shallow mutations of `gen_invalid_instance` (no recursion into the deep generator)
+    let saved = rng.clone();
+    let _ = saved;
+    gen_invalid_instance_inner(rng, schema, defs)
+}
+
 /// An instance that is NOT valid for `schema`, by one targeted mutation.
 pub fn gen_invalid_instance(rng: &mut Rng, schema: &Value, defs: &Defs) -> Option<Value> {
+    // half of the time the invalid part sits INSIDE a container: one element /
+    // member / slot of an otherwise valid value is replaced by an invalid one
+    if rng.chance(1, 2) {
+        if let Some(v) = gen_deep_invalid(rng, schema, defs, 0) {
+            let mut stripped = schema.clone();
+            if let Some(o) = stripped.as_object_mut() {
+                o.remove("default");
+            }
+            if model::validate(&stripped, &v, defs, 0) == Some(false) {
+                return Some(v);
+            }
+        }
+    }
+    gen_invalid_instance_inner(rng, schema, defs)
+}
+
+fn gen_invalid_instance_inner(rng: &mut Rng, schema: &Value, defs: &Defs) -> Option<Value> {
     let valid = gen_instance(rng, schema, defs, 0)?;
     let candidates: Vec<Value> = match &valid {
         Value::Bool(_) => vec![json!("yes"), json!(1)],
@@ -671,8 +769,15 @@ fn add_defaults(rng: &mut Rng, sw: &Swarm, schema: &mut Value, defs: &Defs, top:
                     gen_instance(rng, p, defs, 0)
                 };
                 if let (Some(v), Some(po)) = (v, p.as_object_mut()) {
-                    // `$ref` with siblings is a different construct in draft-07; keep refs bare
-                    if !po.contains_key("$ref") {
+                    if let Some(r) = po.get("$ref").cloned() {
+                        // a default next to a reference is written the way schemars
+                        // writes it: allOf [ $ref ] with the default as a sibling
+                        if rng.chance(1, 2) {
+                            po.remove("$ref");
+                            po.insert("allOf".into(), json!([{"$ref": r}]));
+                            po.insert("default".into(), v);
+                        }
+                    } else {
                         po.insert("default".into(), v);
                     }
                 }
